@@ -69,3 +69,17 @@ Definition all_plain (s : str) : bool := forallb plain s.
 Definition cmd_safe (od : vopt * str) : bool :=
   all_plain (snd od) && all_plain (v_name (fst od)) && negb (existsb (Z.eqb 61) (v_name (fst od)))
   && (v_implicit (fst od) || negb (is_nil (snd od))).
+
+(* ---------------- groups handed to OptionContext::add one after the other ---------------- *)
+Definition same_cap (cap : str) (g : group) : bool := str_eqb (g_caption g) cap.
+(* the captions in the order in which each is seen first *)
+Definition first_occ (caps : list str) : list str :=
+  fold_left (fun acc x => if existsb (fun y => str_eqb y x) acc then acc else acc ++ [x]) caps [].
+(* everything the adds said about one caption: its options in the order of the adds, and whether some add gave it a level <= L *)
+Definition cap_opts (cap : str) (pieces : list group) : list vopt := flat_map g_opts (filter (same_cap cap) pieces).
+Definition cap_shown (dl : Z) (cap : str) (pieces : list group) : bool :=
+  existsb (fun q => same_cap cap q && (g_level q <=? dl)) pieces.
+(* sub groups first, then the main group - on any list *)
+Definition rot {A} (l : list A) : list A := match l with [] => [] | x :: r => r ++ [x] end.
+(* the caption line of the help text *)
+Definition cap_frame (cap : str) : str := if is_nil cap then [] else [10] ++ cap ++ [58; 10; 10].
